@@ -142,6 +142,9 @@ def c05_cfgs(tier):
         for w in ws:
             for h in hs:
                 out.append(cfg('c04', 0, n=3, ringf=2, ringx=8, w=w, h=h, type=t, exposure=4, client=3))
+    for (w, h) in ((1, 1), (3, 1), (5, 3), (2, 2), (7, 1), (3, 3)):
+        for t in ((0, 1, 3) if tier == 'quick' else (0, 1, 2, 3, 5, 6, 7)):
+            out.append(cfg('c10', 0, avg=2, n=4, ringf=3, ringx=8, fringf=2, fringx=8, w=w, h=h, type=t, exposure=4, client=3, prefill=0x42))
     out += [cfg('c04', 1, n=4, ringf=3, ringx=8, w=5, h=1, type=0, exposure=4, client=3),
             cfg('c04', 1, n=4, ringf=3, ringx=40, w=3, h=3, type=1, exposure=4, client=3)]
     if tier == 'thorough':
@@ -156,6 +159,9 @@ def c06_cfgs(tier):
     q += [cfg('c06', 'D2', ends='ss', prog='mm', **base), cfg('c06', 'D2', ends='as', prog='pm', **base), cfg('c06', 'D2', ends='ss', prog='m', **{**base, 'from': 1}),
           cfg('c06', 'D2', ends='as', prog='mH', **base), cfg('c06', 'D2', ends='sa', prog='hm', **base), cfg('c06', 1, ends='as', prog='m', **{**base, 'n': 2}),
           cfg('c06u', 'D1', ends='s', prog='m', undrained_stop=1, **base)]
+    # a client that falls behind across a ring wrap and releases one frame per poll (3-frame ring, 5 frames)
+    lag = dict(exposure=4, n=5, ringf=3, ringx=8)
+    q += [cfg('c06', 'D1', ends='ss', prog=p, **lag) for p in ('wp', 'wwp', 'wpp', 'pwp', 'wwpp')] + [cfg('c06', 'D2', ends='s', prog='wwp', **lag), cfg('c06', 'D2', ends='sa', prog='wpp', **lag)]
     if tier == 'quick':
         return q
     t = list(q)
@@ -239,12 +245,12 @@ def c10_cfgs(tier):
 
 def c08_programs(depth):
     import itertools
-    alpha = 'ABs0tmuSawX'
+    alpha = 'ABCs0tmuSawX'
     out = []
     for k in range(1, depth + 1):
         for t in itertools.product(alpha, repeat=k):
             p = ''.join(t)
-            if 'A' not in p and 'B' not in p:
+            if 'A' not in p and 'B' not in p and 'C' not in p:
                 continue          # no device is ever opened
             if 's' not in p and k > 2:
                 continue          # nothing runs: covered by the shorter prefixes
@@ -258,10 +264,10 @@ def c08_programs(depth):
 
 def c08_cfgs(tier):
     if tier == 'quick':
-        progs = c08_programs(3) + ['AsSBsS', 'AsBsS', 'AsAS', 'AsaXAsS', 'AsmSu', 'AssS', 'AsXAs', 'ABsSa', 'AsSsa', 'Asmau', 'AstS']
+        progs = c08_programs(3) + ['AsSBsS', 'AsBsS', 'AsAS', 'AsaXAsS', 'AsmSu', 'AssS', 'AsXAs', 'ABsSa', 'AsSsa', 'Asmau', 'AstS', 'AsCS', 'AsDS', 'AsCsS', 'AsDsS', 'CsAS', 'AswCS']
         c = [cfg('c08', 'D1', prog=p) for p in progs]
         c += [cfg('c08', 0, prog=p) for p in ('AsS', 'Asa', 'AsBS', 'AsAS', 'AsSsS', 'AsaAsS')]
-        c += [cfg('c08', 'D2', prog=p) for p in ('AsS', 'Asa', 'AsBS', 'AsAS', 'AsXAsS', 'AsmSu', '2sa', '2sSA')]
+        c += [cfg('c08', 'D2', prog=p) for p in ('AsS', 'Asa', 'AsBS', 'AsAS', 'AsCS', 'AsDS', 'AsXAsS', 'AsmSu', '2sa', '2sSA')]
         return c
     progs = c08_programs(4) + [p + q for p in ('AsS', 'Asa', 'AsB') for q in ('BsS', 'XAs', 'sS', 'AsS', 'as')]
     c = [cfg('c08', 'D1', prog=p) for p in progs]
